@@ -314,7 +314,12 @@ func (in *Input) options() []annotate.Option {
 
 // Run annotates a fresh deep copy of the input with the real implementation.
 func (in *Input) Run() (out *Outcome) {
-	b := in.Build()
+	return in.RunOn(in.Build())
+}
+
+// RunOn annotates already built (possibly already annotated) parents with this input's
+// datasource and options.
+func (in *Input) RunOn(b *Built) (out *Outcome) {
 	out = &Outcome{Built: b}
 	defer func() {
 		if r := recover(); r != nil {
@@ -347,6 +352,56 @@ func (in *Input) Run() (out *Outcome) {
 	out.Refs, out.Updates = b.Observe()
 	return out
 }
+
+// TwoStep models incremental use: the parents are annotated in full against the histories without
+// the newest version of the children in [batch]; then the same, already annotated objects
+// (Updates non-empty) are re-annotated against the full histories with ChildFilter = batch.
+// It returns the input of the second call (references as the first call left them) and its outcome;
+// nil when the first call fails.
+func (in *Input) TwoStep(batch []osm.FeatureID) (*Input, *Outcome) {
+	inBatch := map[osm.FeatureID]bool{}
+	for _, f := range batch {
+		inBatch[f] = true
+	}
+	first := *in
+	first.HasFilter, first.Filter = false, nil
+	first.Hists = nil
+	for _, h := range in.Hists {
+		h2 := h
+		if inBatch[h.FID] && len(h.Versions) >= 2 {
+			// drop the newest version (highest version number)
+			mi := 0
+			for i, v := range h.Versions {
+				if v.Version > h.Versions[mi].Version {
+					mi = i
+				}
+			}
+			h2.Versions = append(append([]Hver(nil), h.Versions[:mi]...), h.Versions[mi+1:]...)
+		}
+		first.Hists = append(first.Hists, h2)
+	}
+	first.ComputeReverse()
+	b := first.Build()
+	o1 := first.RunOn(b)
+	if o1.Status != 0 {
+		return nil, nil
+	}
+	second := *in
+	second.HasFilter, second.Filter = true, batch
+	second.Parents = nil
+	for pi, p := range in.Parents {
+		p2 := p
+		p2.Refs = append([]Ref(nil), o1.Refs[pi]...)
+		second.Parents = append(second.Parents, p2)
+	}
+	return &second, second.RunOn(b)
+}
+
+// Zones: different *time.Location values, so that equal instants get different representations.
+var Zones = []*time.Location{time.UTC, time.FixedZone("plus1", 3600), time.FixedZone("minus5", -5 * 3600), time.FixedZone("utc2", 0)}
+
+// Rezone returns the same instant represented in another location.
+func Rezone(rng *rand.Rand, t time.Time) time.Time { return t.In(Zones[rng.Intn(len(Zones))]) }
 
 // Observe projects the annotated state of freshly built parents.
 func (b *Built) Observe() ([][]Ref, []osm.Updates) {
@@ -549,14 +604,14 @@ func Generate(rng *rand.Rand, g GenOpts) *Input {
 		old := now.Before(osm.CommitInfoStart)
 		switch {
 		case in.Regime == "nocommit" || old:
-			return now, nil
+			return Rezone(rng, now), nil
 		default:
 			ts := now.Add(-time.Duration(rng.Intn(3)) * time.Second)
 			if ts.Before(osm.CommitInfoStart) {
 				ts = now
 			}
-			c := now
-			return ts, &c
+			c := Rezone(rng, now)
+			return Rezone(rng, ts), &c
 		}
 	}
 	childEdit := func(c *childState) {
